@@ -5,18 +5,22 @@
    driver renders the instance to YANG modules and compiles them with the real
    compiler.  One chunk per initial state.                                     *)
 EXTENDS CompileSets, Json, SequencesExt
-CONSTANTS Size, Only, NSample, NCombo
+CONSTANTS Size, Only, NSample, NCombo, NScoped
 VARIABLES chunk, done
 GChunks == {c \in Chunks(Size) : Only = {} \/ c[1] \in Only} \cup (IF NCombo > 0 THEN {<<"combo", "-", Size>>} ELSE {})
 Vec(I) == [inst |-> I, verdict |-> Verdict(I), schema |-> Schema(I), judgeSchema |-> SchemaJudged(I), judgeVerdict |-> JudgeVerdict(I),
-           cyclic |-> (IncludeCycle(I) \/ ImportCycle(I) \/ DefCycle(I)), defects |-> SetToSeq(Defects(I))]
+           cyclic |-> (IncludeCycle(I) \/ ImportCycle(I) \/ DefCycle(I)), defects |-> SetToSeq(Defects(I)),
+           \* C11 is about PARSEABLE module sets: only these may be refused by the parser (then counted, not judged)
+           mayNotParse |-> ((\E d \in I.defs : Scoped(d.home)) \/ IllArgKind(I))]
 \* (SS is bound once: the set is built a single time, not per draw)
 PickN(S, n) == UNION {IF n = 0 \/ Cardinality(SS) <= n THEN SS ELSE {RandomElement(SS) : i \in 1..n} : SS \in {S}}
 \* all of the chunk, or (NSample > 0) seeded samples of it; the subimport and include families are always taken whole
 \* (few of their instances carry a given dependency shape: sampling 40 of them left single-instance margins)
 InstancesOf(c) == IF c[1] = "combo" THEN Combos(NCombo, AllPlaces(Size))
-                  ELSE IF NSample = 0 \/ c[1] \in {"subimport", "include"} THEN Chunk(c)
+                  ELSE IF NSample = 0 /\ c[1] \in Kinds /\ c[2] = "scoped" THEN Chunk(c) \cup SampleScopeds(c[1], NScoped)
+                  ELSE IF NSample = 0 \/ c[1] \in {"subimport", "include", "kindmix"} THEN Chunk(c)
                   ELSE IF c[1] \in Kinds /\ c[2] = "twin" THEN SampleTwins(c[1], 3 * NSample)
+                  ELSE IF c[1] \in Kinds /\ c[2] = "scoped" THEN SampleScopeds(c[1], NScoped)
                   ELSE IF c[1] \in Kinds THEN SampleDefs(c[1], c[2], AllPlaces(c[3]), NSample)
                   ELSE PickN(Chunk(c), NSample)
 FileOf(c) == "cvec_" \o c[1] \o "_" \o c[2] \o ".ndjson"
